@@ -1,4 +1,4 @@
-From Mds Require Import Common.ExtractBase Gen.RingIdx Ring.RingModel.
+From Mds Require Import Common.ExtractBase Gen.RingIdx Ring.RingBase Ring.RingModel.
 Require Extraction.
 Require Import ExtrOcamlBasic.
-Extraction "ring_model.ml" RingModel.step RingModel.run RingModel.empty_heap RingModel.enc base_types.
+Extraction "ring_model.ml" RingModel.step RingModel.run RingBase.empty_heap RingBase.enc base_types.
